@@ -255,6 +255,12 @@ func buildSchema() graphql.Schema {
 			}
 			return cat
 		}})
+	// Dog implements Node with a covariant field (twin: Dog for twin: Node): checking that implementation
+	// makes schema construction consult the possible-type table once, as real schemas do
+	var node *graphql.Interface
+	node = graphql.NewInterface(graphql.InterfaceConfig{Name: "Node",
+		Fields:      graphql.FieldsThunk(func() graphql.Fields { return graphql.Fields{"twin": &graphql.Field{Type: node}} }),
+		ResolveType: func(p graphql.ResolveTypeParams) *graphql.Object { return dog }})
 	petFields := func(extra string) graphql.FieldsThunk {
 		return func() graphql.Fields {
 			return graphql.Fields{
@@ -265,7 +271,12 @@ func buildSchema() graphql.Schema {
 			}
 		}
 	}
-	dog = graphql.NewObject(graphql.ObjectConfig{Name: "Dog", Interfaces: graphql.InterfacesThunk(func() []*graphql.Interface { return []*graphql.Interface{petI} }), Fields: petFields("barks")})
+	dog = graphql.NewObject(graphql.ObjectConfig{Name: "Dog", Interfaces: graphql.InterfacesThunk(func() []*graphql.Interface { return []*graphql.Interface{petI, node} }),
+		Fields: graphql.FieldsThunk(func() graphql.Fields {
+			fs := petFields("barks")()
+			fs["twin"] = &graphql.Field{Type: dog, Resolve: func(p graphql.ResolveParams) (interface{}, error) { return p.Source, nil }}
+			return fs
+		})})
 	cat = graphql.NewObject(graphql.ObjectConfig{Name: "Cat", Interfaces: graphql.InterfacesThunk(func() []*graphql.Interface { return []*graphql.Interface{petI} }), Fields: petFields("lives")})
 	own := graphql.NewObject(graphql.ObjectConfig{Name: "Owner", Fields: graphql.FieldsThunk(func() graphql.Fields {
 		return graphql.Fields{
@@ -400,8 +411,9 @@ func sharedPlans(schema *graphql.Schema) map[int]*graphql.Plan {
 		if err != nil {
 			continue
 		}
-		if vr := graphql.ValidateDocument(schema, doc, nil); !vr.IsValid {
-			continue
+		if i == len(requests)-1 {
+			continue // the invalid request has no plan; the others are valid and are planned WITHOUT validating,
+			// so that preparing the shared plans does not warm the schema (validation calls IsPossibleType etc.)
 		}
 		if p, err := graphql.PlanQuery(schema, doc, ""); err == nil {
 			out[i] = p
